@@ -172,3 +172,32 @@ Proof.
   do 3 eexists. split; [vm_compute; reflexivity|]. split; [vm_compute; reflexivity|].
   vm_compute. discriminate.
 Qed.
+
+(** all_classes mode (no target classes), both thresholds <= 1:
+    remove_empty_shapes may be on -- every shape keeps the constraint on the
+    instantiation property (Props/C14.v, [C14_no_empty_shape_all_classes]), so
+    the shape-level cleaning removes nothing and the shapes still correspond
+    one to one *)
+Theorem C12_run_keys_monotone_all_classes : forall c thr1 thr2 g ns1 s1 ns2 s2,
+  r_targets c = None -> wf_frac thr1 -> wf_frac thr2 ->
+  fle BAlg thr1 thr2 = true -> fle BAlg thr2 (fone BAlg) = true ->
+  (N.of_nat (List.length g) < 2 ^ 53)%N ->
+  run_shapes BAlg c thr1 g = inl (ns1, s1) -> run_shapes BAlg c thr2 g = inl (ns2, s2) ->
+  ns1 = ns2 /\
+  Forall2 (fun sh1 sh2 =>
+    sh_name sh1 = sh_name sh2 /\ sh_class sh1 = sh_class sh2 /\ sh_n sh1 = sh_n sh2 /\
+    incl (map (skey (scfg_of c ns1)) (sh_stmts sh2)) (map (skey (scfg_of c ns1)) (sh_stmts sh1))) s1 s2.
+Proof. exact run_keys_monotone_all_classes. Qed.
+Print Assumptions C12_run_keys_monotone_all_classes.
+
+Example C12_run_all_classes_nonvacuous :
+  r_targets base_rcfg = None /\ r_remove_empty base_rcfg = true /\
+  fle BAlg (b_ratio 1 2) (fone BAlg) = true /\
+  exists ns s1 s2, run_shapes BAlg base_rcfg thr0 g_third = inl (ns, s1) /\
+                   run_shapes BAlg base_rcfg (b_ratio 1 2) g_third = inl (ns, s2) /\
+                   map (fun sh => List.length (sh_stmts sh)) s1 <> map (fun sh => List.length (sh_stmts sh)) s2.
+Proof.
+  split; [reflexivity|]. split; [reflexivity|]. split; [vm_compute; reflexivity|].
+  do 3 eexists. split; [vm_compute; reflexivity|]. split; [vm_compute; reflexivity|].
+  vm_compute. discriminate.
+Qed.
